@@ -275,23 +275,18 @@ func main() {
 		}
 	}
 	fset := token.NewFileSet()
-	// garbled packages: directory -> files
-	type gpkg struct {
-		dir   string
-		files map[string]*ast.File
-	}
-	var gpkgs []*gpkg
-	groot := filepath.Join(debugDir, "garbled")
-	filepath.Walk(groot, func(p string, info os.FileInfo, err error) error {
+	var reports []*pkgReport
+	importsSeen := map[string]string{} // original import path -> obfuscated path found in an importer's garbled import declaration
+	importNames := map[string]string{} // original import path -> package name
+	filepath.Walk(filepath.Join(debugDir, "source"), func(p string, info os.FileInfo, err error) error {
 		if err == nil && info.IsDir() {
-			if fs := parseDir(fset, p); len(fs) > 0 {
-				rel, _ := filepath.Rel(groot, p)
-				gpkgs = append(gpkgs, &gpkg{rel, fs})
+			for _, f := range parseDir(fset, p) {
+				rel, _ := filepath.Rel(filepath.Join(debugDir, "source"), p)
+				importNames[filepath.ToSlash(rel)] = f.Name.Name
 			}
 		}
 		return nil
 	})
-	var reports []*pkgReport
 	os.Chdir(modDir)
 	imp := importer.ForCompiler(fset, "source", nil)
 	filepath.Walk(modDir, func(p string, info os.FileInfo, err error) error {
@@ -301,8 +296,7 @@ func main() {
 		if rel, _ := filepath.Rel(modDir, p); strings.HasPrefix(rel, "debug") || strings.HasPrefix(rel, "out") {
 			return filepath.SkipDir
 		}
-		ofiles := parseDir(fset, p)
-		if len(ofiles) == 0 {
+		if len(parseDir(fset, p)) == 0 {
 			return nil
 		}
 		rel, _ := filepath.Rel(modDir, p)
@@ -310,44 +304,50 @@ func main() {
 		if rel != "." {
 			ip = modPath + "/" + filepath.ToSlash(rel)
 		}
+		// the files that were really compiled (build constraints applied) are the ones garble copied to <debugdir>/source
+		ofiles := parseDir(fset, filepath.Join(debugDir, "source", filepath.FromSlash(ip)))
+		if len(ofiles) == 0 {
+			return nil
+		}
+		isMain := false
+		for _, f := range ofiles {
+			isMain = f.Name.Name == "main"
+		}
 		rep := &pkgReport{ImportPath: ip, Names: map[string]string{}, Files: map[string]string{}, MapListed: map[string]string{}}
 		reports = append(reports, rep)
-		// find the garbled package whose files have the same shapes
-		want := map[string]string{}
-		for n, f := range ofiles {
-			want[shape(f)] = n
-		}
-		var best *gpkg
-		for _, gp := range gpkgs {
-			ok := 0
-			for _, gf := range gp.files {
-				if _, hit := want[shape(gf)]; hit {
-					ok++
-				}
-			}
-			if ok == len(ofiles) && len(gp.files) >= len(ofiles) {
-				if best != nil {
-					rep.Problems = append(rep.Problems, "ambiguous garbled package match")
-				}
-				best = gp
-			}
-		}
-		if best == nil {
+		// <debugdir>/garbled mirrors <debugdir>/source: same directories (original import paths), same file names
+		gfiles := parseDir(fset, filepath.Join(debugDir, "garbled", filepath.FromSlash(ip)))
+		if len(gfiles) == 0 {
 			rep.Problems = append(rep.Problems, "no garbled package matches (package not obfuscated or shape changed)")
 			return nil
 		}
-		rep.GarbledDir = best.dir
 		posName := map[token.Pos]string{}
-		for gn, gf := range best.files {
-			if on, hit := want[shape(gf)]; hit {
-				rep.Files[on] = gn
-				rep.GarbledName = gf.Name.Name
-				pair(ofiles[on], gf, rep.Names, posName, &rep.Problems)
+		for on, of := range ofiles {
+			gf := gfiles[on]
+			if gf == nil {
+				rep.Problems = append(rep.Problems, "garbled tree lacks "+on)
+				continue
+			}
+			os_, gs := shape(of), shape(gf)
+			if gs != os_ && !(isMain && strings.HasPrefix(gs, os_)) {
+				rep.Problems = append(rep.Problems, "garbled file "+on+" does not correspond to its source (declaration shape differs)")
+				continue
+			}
+			rep.Files[on] = on
+			rep.GarbledName = gf.Name.Name
+			pair(of, gf, rep.Names, posName, &rep.Problems)
+			// obfuscated import paths as used by this importer
+			for _, oi := range of.Imports {
+				opath := strings.Trim(oi.Path.Value, "\"")
+				for _, gi := range gf.Imports {
+					if gi.Name != nil && oi.Name != nil && gi.Name.Name == oi.Name.Name || gi.Name != nil && oi.Name == nil && gi.Name.Name == importNames[opath] {
+						importsSeen[opath] = strings.Trim(gi.Path.Value, "\"")
+					}
+				}
 			}
 		}
 		// garble map comparison
 		if m, ok := gmap[ip]; ok {
-			rep.MapPathOK = m.Path == best.dir
 			var files []*ast.File
 			var names []string
 			for n := range ofiles {
@@ -403,6 +403,12 @@ func main() {
 		}
 		return nil
 	})
+	for _, rep := range reports {
+		rep.GarbledDir = importsSeen[rep.ImportPath]
+		if m, ok := gmap[rep.ImportPath]; ok {
+			rep.MapPathOK = rep.GarbledDir == "" || m.Path == rep.GarbledDir
+		}
+	}
 	enc := json.NewEncoder(os.Stdout)
 	enc.SetIndent("", " ")
 	enc.Encode(reports)
